@@ -45,6 +45,9 @@ CHECKS["C12"] = ("model-based stateful testing: exhaustive short histories + rap
 CHECKS["C13"] = ("exhaustive enumeration of response-operation sequences and middleware stacks against a reference model of commit-once semantics; rapid longer sequences",
          "All sequences up to length 4 (thorough 6, symmetry-pruned) over 11 response operations as generated route handlers served through an instrumented ResponseWriter (WriteHeader count, header snapshot at commit); all middleware stacks of <= 5 entries with priorities {-1,0,0,1,5} in every registration order; longer sequences seeded.",
          "Single-operation body/header contributions are calibrated from the implementation; the model asserts ordering and commit semantics.")
+CHECKS["C14"] = ("round-trip and differential testing against reference codecs (Go encoding/json, base64, hex, net/url, crypto, protowire.Consume*, an independent PHP-serialize reader/writer) over rapid-generated value trees and grammar-aware mutated byte strings",
+         "Value trees and byte strings through every listed encoder/decoder: encoder output must be read back by the reference implementation as the same value and the matching decoder must invert it; json_decode / unserialize / ParseRawFields must accept exactly what their reference parser accepts, produce the same tree and account for every byte; every decoder call must return inside the sandbox watchdog without a Go panic; single bytes and structural byte pairs enumerated.",
+         "Depth-limit borderlines of the protobuf parser are asserted only where both plausible counting conventions agree; empty keyed values may encode as [] or {}.")
 NOT_YET = {
 }
 
